@@ -34,8 +34,6 @@ func main() {
 	commands["render"] = cmdRender
 	commands["gen"] = cmdGen
 	commands["lex"] = cmdLex
-	commands["astexport"] = cmdAstExport
-	commands["repotests"] = cmdRepoTests
 	commands["batch"] = cmdBatch
 	commands["emit"] = cmdEmit
 	commands["cli"] = cmdCli
